@@ -14,6 +14,7 @@ import (
 	"sort"
 	"strconv"
 	"strings"
+	"sync"
 	"testing"
 	"testing/synctest"
 	"time"
@@ -56,6 +57,7 @@ type runner struct {
 	tr      http.RoundTripper
 	nx      int
 	replies []*replyRec
+	mu      sync.Mutex
 	name    string
 	cancels []context.CancelFunc
 }
@@ -237,10 +239,14 @@ var cacheOwn = map[string]bool{"Age": true, "X-Httpcache-Status": true, "X-From-
 // doReq performs one exchange and logs begin / ret.
 func (r *runner) doReq(st *Step) {
 	w := r.w
+	r.mu.Lock()
 	r.nx++
 	x := r.nx
+	r.mu.Unlock()
 	ctx, cancel := context.WithCancel(context.WithValue(context.Background(), xkey{}, x))
+	r.mu.Lock()
 	r.cancels = append(r.cancels, cancel) // cancelled at the end of the scenario unless scripted earlier
+	r.mu.Unlock()
 	if st.Cancel == 2 {
 		cancel()
 	}
@@ -259,7 +265,7 @@ func (r *runner) doReq(st *Step) {
 	t0 := w.now()
 	hard := 0
 	for _, f := range st.Faults {
-		if f.Kind != "trunc" && f.Kind != "flip" {
+		if f.Kind != "trunc" && f.Kind != "flip" && f.Kind != "flipat" && f.Kind != "truncat" && f.Kind != "extend" {
 			hard = 1
 		}
 	}
@@ -409,7 +415,9 @@ func (r *runner) doReq(st *Step) {
 			}
 		}
 		ev["hopin"] = hop
+		r.mu.Lock()
 		r.replies = append(r.replies, &replyRec{x: x, hdr: resp.Header, snap: resp.Header.Clone(), req: req, rsnp: hsnap, rurl: usnap})
+		r.mu.Unlock()
 	} else {
 		ev["stsame"] = 1
 	}
@@ -462,7 +470,7 @@ func RunScenario(t *testing.T, sc *Scenario, log *EventLog, seed int64, workDir 
 			defer os.RemoveAll(d)
 		}
 		log.Emit(M{"ev": "reset", "scn": sc.ID, "backend": sc.Backend, "seed": int(seed % 1000000), "t": w.now(),
-			"swr": swrEffective(sc.Opt), "log": sc.Opt.Log, "grp": sc.Grp, "spv": sc.Spv})
+			"swr": swrEffective(sc.Opt), "log": sc.Opt.Log, "grp": sc.Grp, "spv": sc.Spv, "gk": sc.Gk})
 		if err := r.openBackend(); err != nil {
 			t.Fatalf("open backend: %v", err)
 		}
@@ -475,6 +483,13 @@ func RunScenario(t *testing.T, sc *Scenario, log *EventLog, seed int64, workDir 
 					maxLat = a.Lat
 				}
 			}
+			for _, ps := range st.Par {
+				for _, a := range ps.Ans {
+					if a.Lat > maxLat {
+						maxLat = a.Lat
+					}
+				}
+			}
 			switch st.Op {
 			case "req":
 				r.doReq(st)
@@ -485,6 +500,19 @@ func RunScenario(t *testing.T, sc *Scenario, log *EventLog, seed int64, workDir 
 				}
 				time.Sleep(d)
 				log.Emit(M{"ev": "tick", "d": st.D, "t": w.now()})
+			case "conc":
+				// the requests of this step are issued concurrently on the one transport
+				log.Emit(M{"ev": "conc", "n": len(st.Par), "t": w.now()})
+				var wg sync.WaitGroup
+				for j := range st.Par {
+					wg.Add(1)
+					go func(ps *Step) {
+						defer wg.Done()
+						r.doReq(ps)
+					}(&st.Par[j])
+				}
+				wg.Wait()
+				log.Emit(M{"ev": "concend", "t": w.now()})
 			case "reopen":
 				synctest.Wait()
 				if err := r.openBackend(); err != nil {
